@@ -168,6 +168,9 @@ func init() {
 	Register(&Check{ID: "C10", Level: "exploration",
 		Rule: "one case = one generated workflow (multi-input, multi-output, fan-in/out, parameters, MapToTags taggers, StreamToSubStream + joined in-ports, Go-function tasks) under one tape-chosen schedule. For EVERY finalized output the audit file is parsed (strict JSON decoding into the record type) and compared field by field, recursively down to the source files, with the lineage tree of the independent reference: ProcessName, Params, OutFiles, Upstream keys, inherited tags (superset; extras only from taggers), Command = the words the simulated shell actually received, StartTime<=FinishTime, duration>=0. distinct = event-log hash; non-trivial = >=2 tasks and >=1 non-default choice",
 		Run: func(c *Case) Verdict {
+			if c.Tape.Choose(simrt.StGen, 6, 0) == 1 {
+				return lazyTagCase(c)
+			}
 			w := Generate(c.Tape, tierProfile(profC10, c.Tier))
 			c.Sample = sample(w)
 			ex := Eval(w)
@@ -400,4 +403,50 @@ func init() {
 				return check(inc2.Sim.FS.Root, before, inc, inc2)
 			}
 		}})
+}
+
+// lazyTagCase: items whose audit record is loaded lazily (parts of a
+// FileSplitter, output of a Concatenator) are fanned out to a tagging
+// component and to other consumers at the same time; the tag must be present
+// on every record downstream of the tagger, whoever touches the item first.
+func lazyTagCase(c *Case) Verdict {
+	w := lazyIPFanoutWF(c)
+	hasTag := false
+	for _, n := range w.Nodes {
+		if n.Kind == KMapToTags {
+			hasTag = true
+		}
+	}
+	if !hasTag {
+		c.Probe("trivial-case")
+		return OK()
+	}
+	c.Sample = "lazy record + tagger: " + sample(w)
+	inc := RunInc(w, c.Tape, nil, 0, IncOpts{KillAt: -1, Strategy: strategyOf(c.Tape), Trace: c.Trace})
+	c.Absorb(inc)
+	if v, ok := inconclusiveEnd(inc); ok {
+		return v
+	}
+	if !completedOK(inc) {
+		return Skipped(Viol("no-completion", "", "%s", endDesc(inc)))
+	}
+	root := inc.Sim.FS.Root
+	for p, e := range WorkFiles(root) {
+		if e.Kind != simrt.KFile || !strings.HasSuffix(p, ".use0.o0") {
+			continue
+		}
+		r, err := readAudit(root, p)
+		if err != nil {
+			return Viol("audit-unreadable", "", "%v", err)
+		}
+		if len(r.Upstream) != 1 {
+			return Viol("audit-upstream-keys", "", "%s.audit.json: Upstream keys %v, the task had exactly one input", p, sortedKeys(r.Upstream))
+		}
+		for in := range r.Upstream {
+			if want := TagValue(in); r.Tags["kind"] != want {
+				return Viol("audit-tags-lost", "", "%s.audit.json: tag kind=%s attached upstream (by the tagging component, to %s) is missing on this downstream record (Tags %v)", strings.TrimPrefix(p, "/work/"), want, in, r.Tags)
+			}
+		}
+	}
+	return OK()
 }
